@@ -12,8 +12,35 @@ instance (f : FieldFacts) : Decidable (FieldOk f) :=
       f.access &&& maskField = f.access ∧ validUnqualified f.name = true ∧ ∀ a ∈ f.attrs, a.name ∉ fieldAttrNames)
     ⟨fun ⟨a, b, c, d, e, g, h, i⟩ => ⟨a, b, c, d, e, g, h, i⟩, fun h => ⟨h.rva, h.ria, h.rvta, h.rita, h.access, h.mask, h.name, h.unknown⟩⟩
 
+instance (r : MemberRef) : Decidable (fieldRefOk r) := by unfold fieldRefOk; infer_instance
+instance (r : MemberRef) : Decidable (methodRefOk r) := by unfold methodRefOk; infer_instance
+instance (h : ClassRead.Handle) : Decidable (handleOk h) := by unfold handleOk; infer_instance
+instance (c : Loadable) : Decidable (loadableOk c) := by cases c <;> simp only [loadableOk] <;> infer_instance
+instance (v : Int) : Decidable (inI8 v) := by unfold inI8; infer_instance
+instance (v : Int) : Decidable (inI16 v) := by unfold inI16; infer_instance
+instance (v : Int) : Decidable (inI32 v) := by unfold inI32; infer_instance
+instance (i : ClassRead.Insn) : Decidable (insnOk i) := by cases i <;> simp only [insnOk] <;> infer_instance
+instance (n : Nat) (v : Lv) : Decidable (lvOk n v) := by unfold lvOk; infer_instance
+
+instance (c : Code) : Decidable (RCodeOk c) :=
+  decidable_of_iff ((∀ e ∈ c.insns, insnOk e.insn ∧ (∀ t ∈ targetsOf e.insn, t < c.insns.length) ∧
+        ∀ f, e.frame = some f → frameOkR c.insns.length f) ∧
+      (c.insns.map fun e => maxSizeR e.insn).sum ≤ 32767 ∧ c.maxStack < 65536 ∧ c.maxLocals < 65536 ∧
+      (∀ e ∈ c.exceptions, e.start < c.insns.length ∧ e.end_ ≤ c.insns.length ∧ e.handler < c.insns.length ∧
+        ∀ cl, e.catch_ = some cl → validClassName cl = true) ∧
+      (∀ ls, c.lines = some ls → ∀ e ∈ ls, e.1 < c.insns.length ∧ e.2 < 65536) ∧
+      (∀ vs, c.locals = some vs → vs ≠ [] ∧
+        vs = (vs.filter fun v => v.desc.isSome) ++ (vs.filter fun v => v.sig.isSome) ∧ ∀ v ∈ vs, lvOk c.insns.length v) ∧
+      CodeTypeAnnosOk id c.insns.length c.rvta ∧ CodeTypeAnnosOk id c.insns.length c.ritva ∧ c.attrs = [] ∧ codeRefs c < 65535)
+    ⟨fun ⟨a1, a2, a3, a4, a5, a6, a7, a8, a9, a10, a11⟩ => ⟨a1, a2, a3, a4, a5, a6, a7, a8, a9, a10, a11⟩,
+     fun h => ⟨h.insns, h.size, h.maxStack, h.maxLocals, h.exceptions, h.lines, h.locals, h.rvta, h.ritva, h.attrs, h.refs⟩⟩
+
+instance (c : Code) : Decidable (CodeOk c) := by
+  unfold CodeOk
+  split <;> infer_instance
+
 instance (m : MethodFacts) : Decidable (MethodOk m) :=
-  decidable_of_iff (m.code = none ∧ AnnosOk m.rva ∧ AnnosOk m.ria ∧ TypeAnnosOk .method m.rvta ∧ TypeAnnosOk .method m.rita ∧
+  decidable_of_iff ((∀ c, m.code = some c → CodeOk c) ∧ AnnosOk m.rva ∧ AnnosOk m.ria ∧ TypeAnnosOk .method m.rvta ∧ TypeAnnosOk .method m.rita ∧
       (∀ v, m.annotationDefault = some v → v.ok ∧ v.depth ≤ 255) ∧
       m.access < 65536 ∧ m.access &&& maskMethod = m.access ∧ validMethodName m.name = true ∧
       (∀ es, m.exceptions = some es → ∀ e ∈ es, validClassName e = true) ∧
@@ -22,6 +49,20 @@ instance (m : MethodFacts) : Decidable (MethodOk m) :=
       ∀ a ∈ m.attrs, a.name ∉ methodAttrNames)
     ⟨fun ⟨a, b, c, d, e, g, h, i, j, k, l, n⟩ => ⟨a, b, c, d, e, g, h, i, j, k, l, n⟩,
      fun h => ⟨h.code, h.rva, h.ria, h.rvta, h.rita, h.annotationDefault, h.access, h.mask, h.name, h.exceptions, h.params, h.unknown⟩⟩
+
+instance (r : RecordComponent) : Decidable (RecordOk r) :=
+  decidable_of_iff (AnnosOk r.rva ∧ AnnosOk r.ria ∧ TypeAnnosOk .field r.rvta ∧ TypeAnnosOk .field r.rita ∧
+      ∀ a ∈ r.attrs, a.name ∉ recordAttrNames)
+    ⟨fun ⟨a, b, c, d, e⟩ => ⟨a, b, c, d, e⟩, fun h => ⟨h.rva, h.ria, h.rvta, h.rita, h.unknown⟩⟩
+
+instance (m : Module) : Decidable (ModuleOk m) :=
+  decidable_of_iff ((m.flags < 65536 ∧ m.flags &&& maskModule = m.flags) ∧
+      (∀ r ∈ m.requires, r.flags < 65536 ∧ r.flags &&& maskRequires = r.flags) ∧
+      (∀ e ∈ m.exports, e.flags < 65536 ∧ e.flags &&& maskExports = e.flags) ∧
+      (∀ e ∈ m.opens, e.flags < 65536 ∧ e.flags &&& maskExports = e.flags) ∧
+      (∀ c ∈ m.uses, validClassName c = true) ∧
+      ∀ e ∈ m.provides, validClassName e.name = true ∧ ∀ c ∈ e.with_, validClassName c = true)
+    ⟨fun ⟨a, b, c, d, e, f⟩ => ⟨a, b, c, d, e, f⟩, fun h => ⟨h.flags, h.requires, h.exports, h.opens, h.uses, h.provides⟩⟩
 
 instance (e : InnerClass) : Decidable (InnerOk e) := by unfold InnerOk; infer_instance
 
@@ -32,11 +73,11 @@ instance (t : ClassFacts) : Decidable (ClassOk t) :=
       (∀ es, t.innerClasses = some es → ∀ e ∈ es, InnerOk e) ∧
       (∀ em, t.enclosingMethod = some em → validClassName em.1 = true ∧ ∀ nd, em.2 = some nd → validMethodName nd.1 = true) ∧
       (∀ s, t.sourceDebugExtension = some s → Mutf8.Encodable s = true) ∧
-      AnnosOk t.rva ∧ AnnosOk t.ria ∧ TypeAnnosOk .cls t.rvta ∧ TypeAnnosOk .cls t.rita ∧ t.module = none ∧
+      AnnosOk t.rva ∧ AnnosOk t.ria ∧ TypeAnnosOk .cls t.rvta ∧ TypeAnnosOk .cls t.rita ∧ (∀ m, t.module = some m → ModuleOk m) ∧
       (∀ c, t.moduleMainClass = some c → validClassName c = true) ∧ (∀ c, t.nestHost = some c → validClassName c = true) ∧
       (∀ cs, t.nestMembers = some cs → ∀ c ∈ cs, validClassName c = true) ∧
       (∀ cs, t.permittedSubclasses = some cs → ∀ c ∈ cs, validClassName c = true) ∧
-      t.recordComponents = [] ∧ ∀ a ∈ t.attrs, a.name ∉ classAttrNames)
+      (∀ r ∈ t.recordComponents, RecordOk r) ∧ ∀ a ∈ t.attrs, a.name ∉ classAttrNames)
     ⟨fun ⟨a1, a2, a3, a4, a5, a6, a7, a8, a9, a10, a11, a12, a13, a14, a15, a16, a17, a18, a19, a20, a21, a22⟩ =>
       ⟨a1, a2, a3, a4, a5, a6, a7, a8, a9, a10, a11, a12, a13, a14, a15, a16, a17, a18, a19, a20, a21, a22⟩,
      fun h => ⟨h.version, h.access, h.mask, h.name, h.super, h.interfaces, h.fields, h.methods, h.inner, h.enclosing, h.sde,
